@@ -60,3 +60,13 @@ Example C04_example :
   dec_authorized cf_std (fun u g => (u =? 6) && (g =? 9)) (msg0 <| m_auth_uid := c_uid_any |> <| m_auth_gid := 9 |> <| m_client_uid := 6 |>) = true /\
   dec_authorized cf_std (fun _ _ => false) (msg0 <| m_auth_uid := 5 |> <| m_auth_gid := c_gid_any |> <| m_client_uid := 0 |>) = false.
 Proof. vm_compute. repeat split; reflexivity. Qed.
+
+(* TRANSLATOR TIE: dec_authorized IS dec.c's dec_validate_auth as translated from the C text on every run
+   (tools/facts/cfun.py -> gen/GenCredFun.v): which members are compared (the credential's restriction against the
+   DECODING client's ids), the root exception, the order and the group-membership call. *)
+From MV Require Import CredFun.
+From MV.gen Require Import GenCredFun.
+Theorem C04_authorization_is_the_source : forall (cf : conf) (mem : N -> N -> bool) (m : msg),
+  src_dec_validate_auth cf mem m = ((if dec_authorized cf mem m then 0 else e_cred_unauthorized), m).
+Proof. exact dec_authorized_is_source. Qed.
+Print Assumptions C04_authorization_is_the_source.
